@@ -707,6 +707,10 @@ class HttpRequestParser(HttpParser[RawRequestMessage]):
                 # absolute-form for proxy maybe,
                 # https://datatracker.ietf.org/doc/html/rfc7230#section-5.3.2
                 url = URL(path, encoded=True)
+                # yarl splits and validates the authority lazily: force it
+                # here so a bad host or port is refused now (400) instead of
+                # raising later, outside of any request handler.
+                url.raw_host  # noqa: B018
                 if not url.absolute:
                     # authority-form is only allowed with CONNECT
                     # https://www.rfc-editor.org/info/rfc9112/#section-3.2.3-1
